@@ -212,6 +212,14 @@ DiamondFamily == { Scn("diamond", F(<<L("", "T5", "")>>, <<>>), ins, cs) :
                                       FP(<<L("", "T3", ""), L("", "T4", "")>>, <<L("", "T5", "")>>)}) }
                  \cup { Scn("diamond", F(<<L("", "T3", "")>>, <<>>), <<L("a", "T1", "x")>>, cs) :
                      cs \in PermSeqs({F(<<L("a", "T1", "")>>, <<L("b", "T2", "y")>>), F(<<L("b", "T2", "")>>, <<L("", "T3", "")>>)}) }
+\* one name all the way: a named (and subtyped) input, single-input converters between values of that same name (a chain, or a
+\* two-way conversion) and a target parameter of that name - every edge on the way carries the same-name discount, so the
+\* distances of the search are NEGATIVE from the second vertex on (a search that mistrusts negative sums loses the path)
+NameChainFamily == { Scn("namechain", F(<<L("a", tt, "")>>, <<>>), <<L("a", "T1", s)>> \o extra, cs) :
+                       tt \in {"T2", "T3"}, s \in {"", "s"}, extra \in {<<>>, <<L("b", "T1", "")>>},
+                       cs \in UNION {PermSeqs(q) : q \in {{F(<<L("a", "T1", "")>>, <<L("a", "T2", "")>>), F(<<L("a", "T2", "")>>, <<L("a", "T3", "")>>)},
+                                                          {F(<<L("a", "T1", "")>>, <<L("a", "T2", "")>>), F(<<L("a", "T2", "")>>, <<L("a", "T1", "")>>),
+                                                           F(<<L("a", "T2", "")>>, <<L("a", "T3", "")>>)}}} }
 \* a converter whose Go signature is the target's own (a function vertex is identified by its type: the two collapse)
 SameSigFamily == { Scn("samesig", f, ins, <<f>> \o more) :
                      f \in {FP(<<L("", "T1", "")>>, <<L("", "T2", "")>>), F(<<L("a", "T1", "")>>, <<L("", "T2", "")>>)},
@@ -289,10 +297,10 @@ C16Family == C16Sub \cup C16Nil \cup C16NoParam \cup C16Reuse \cup UNION { { [Sc
 -----------------------------------------------------------------------------
 FamilyScenarios == CASE Family = "C03" -> C03Family \cup SameSigFamily
                      [] Family = "C07" -> C07Family
-                     [] Family = "C05" -> C05Family \cup CycleFamily \cup MatchFamily \cup XFamily \cup DiamondFamily
+                     [] Family = "C05" -> C05Family \cup CycleFamily \cup MatchFamily \cup XFamily \cup DiamondFamily \cup NameChainFamily
                      [] Family = "C08" -> C08Family \cup C08k
-                     [] Family = "C02" -> CycleFamily \cup C05Family \cup MatchFamily \cup XFamily \cup DiamondFamily
-                     [] Family = "C06" -> CycleFamily \cup C04Family
+                     [] Family = "C02" -> CycleFamily \cup C05Family \cup MatchFamily \cup XFamily \cup DiamondFamily \cup NameChainFamily
+                     [] Family = "C06" -> CycleFamily \cup C04Family \cup NameChainFamily
                      [] Family = "C04" -> C04Family
                      [] Family = "C13" -> CycleFamily \cup MatchFamily \cup SlashFamily
                      [] Family = "C01" -> C03Family \cup CycleFamily \cup MatchFamily \cup OutFamily \cup SlashFamily
